@@ -23,7 +23,7 @@ def run(ctx):
     # result depends on the calls before it is rejected in the history where that happens
     base = {}
     for c in ran:
-        if len(c["ops"]) == 1:
+        if len(c["ops"]) == 1 and not c["ops"][0]["mode"].startswith("relocated"):
             base.setdefault(c["events"][0]["key"], c["events"][0])
     # one more history: everything that any history observed, concatenated (cross-history agreement = fresh processes agree)
     allev = []
@@ -31,7 +31,7 @@ def run(ctx):
         allev += c["events"]
     prefix = [dict(e, mode="baseline") for e in base.values()]
     for c in ran:
-        if len(c["ops"]) > 1:
+        if len(c["ops"]) > 1 or (c["ops"] and c["ops"][0]["mode"].startswith("relocated")):
             c["events"] = prefix + c["events"]
     ran.append({"id": "C14/all-histories-concatenated", "ops": [], "events": allev})
     slim = os.path.join(wd, "slim.ndjson")
